@@ -561,39 +561,51 @@ def rule_A(ctx):
         src_iter = unparse(it)
     ctx.check(src_iter == 'self.getNodesId()', 'C06.A', f, 'every node of the network is used as a source',
               witness={'iterates over': src_iter}, node=l, key='all-sources')
-    w = Walker(f, loop_mode='skip')
-    st = State({l.target.id: Rat.atom(l.target.id), f.params[3]: Rat.const(0)})
-    outs = list(w.run(l.body, st))
+    w = Walker(f, loop_mode='once')
     cut, od = f.params[1], f.params[2]
+    outs = [o for o in w.run(body, State({f.params[3]: Rat.const(0)})) if o.kind in ('return', 'fall')]
     n = 0
     for o in outs:
         calls = [e for e in o.state.events if e.kind == 'call' and e.name == 'run_routing_forward']
         pathtxt = [repr(c) for c, _ in o.state.conds]
         if not calls:
-            ctx.violation('C06.A', f, 'the forward search is run from every source unconditionally',
-                          {'path on which a source is skipped': pathtxt,
-                           'why': 'the pairs (n, n) and everything reachable from a skipped source are missing from the table'},
-                          node=l, key='skip')
-            continue
-        n += 1
-        c = calls[0]
-        a_cut = c.kwargs.get('cut', c.args[2] if len(c.args) > 2 else None)
-        a_od = c.kwargs.get('output_dict', c.args[3] if len(c.args) > 3 else None)
-        a_t = c.kwargs.get('target', c.args[1] if len(c.args) > 1 else None)
-        ok = isinstance(c.args[0], Rat) and c.args[0].single_atom() == l.target.id and isinstance(a_cut, Rat) and \
-            a_cut.single_atom() == cut and isinstance(a_od, Rat) and a_od.single_atom() == od and a_t is None
-        ctx.check(ok, 'C06.A', f, 'each source is searched with the caller\'s cut-off and the shared table, no target',
-                  witness={'call': unparse(c.node)}, node=c.node, key='fwd-args')
+            raise shape_error('all_shortest_distances: a path never calls run_routing_forward', f.loc())
+        for c in calls:
+            n += 1
+            inloop = [x for x in c.conds if x not in [y for y in o.state.conds]] if False else None
+            guards = [repr(cn) for cn, _ in c.conds if repr(cn) not in ('%s == None' % od, '%s != None' % od)]
+            ctx.check(not [g for g in guards if l.target.id in g or 'NEXT_EDGES' in g], 'C06.A', f, 'the forward search is run from every source unconditionally',
+                      witness={'conditions on the call': guards,
+                               'why': 'the pairs (n, n) and everything reachable from a skipped source are missing from the table'}, node=c.node, key='skip')
+            a_cut = c.kwargs.get('cut', c.args[2] if len(c.args) > 2 else None)
+            a_od = c.kwargs.get('output_dict', c.args[3] if len(c.args) > 3 else None)
+            a_t = c.kwargs.get('target', c.args[1] if len(c.args) > 1 else None)
+            okc = isinstance(a_cut, Rat) and a_cut.single_atom() == cut
+            ctx.check(okc, 'C06.A', f, 'each source is searched with exactly the caller\'s cut-off (0 included)',
+                      witness={'cut-off passed': vr(a_cut), 'on the path': pathtxt,
+                               'why': 'a truthiness test such as `if not cut` replaces the legitimate cut-off 0 by an unbounded search'}, node=c.node, key='cut')
+            okd = isinstance(a_od, Rat) and (a_od.single_atom() == od or (a_od.single_atom() or '').startswith('dict('))
+            ok = isinstance(c.args[0], Rat) and c.args[0].single_atom() == l.target.id and okd and a_t is None
+            ctx.check(ok, 'C06.A', f, 'each source is searched with the shared table and no target', witness={'call': unparse(c.node)}, node=c.node, key='fwd-args')
     if n == 0:
         raise shape_error('all_shortest_distances never calls run_routing_forward', f.loc())
     p = ctx.prog.func(NET + '.prepare')
-    calls = [n_ for n_ in ast.walk(p.node) if isinstance(n_, ast.Call) and getattr(n_.func, 'attr', None) == 'all_shortest_distances']
-    ok = len(calls) == 1 and any(k.arg == 'cut' and unparse(k.value) == p.params[1] for k in calls[0].keywords) and \
-        any(k.arg == 'output_dict' and unparse(k.value) == 'self.DISTANCES' for k in calls[0].keywords)
-    if len(calls) == 1 and not ok and len(calls[0].args) >= 2:
-        ok = unparse(calls[0].args[0]) == p.params[1] and unparse(calls[0].args[1]) == 'self.DISTANCES'
-    ctx.check(ok, 'C06.A', p, 'prepare fills self.DISTANCES with the caller\'s cut-off',
-              witness={'call': unparse(calls[0]) if calls else None}, node=p.node, key='prepare')
+    wp = Walker(p, loop_mode='skip')
+    pouts = [o for o in wp.run(body_nodocstring(p), State()) if o.kind in ('fall', 'return')]
+    if not pouts:
+        raise shape_error('prepare has no normal path', p.loc())
+    for o in pouts:
+        calls = [e for e in o.state.events if e.kind == 'call' and e.name == 'all_shortest_distances']
+        pathtxt = [repr(c) for c, _ in o.state.conds]
+        ctx.check(len(calls) == 1, 'C06.A', p, 'every call of prepare(cut) computes the table for that cut-off (also when a table already exists)',
+                  witness={'path without computation': pathtxt,
+                           'why': 'a second prepare with a larger cut-off would leave the pairs between the two cut-offs missing'}, node=p.node, key='prepare-always')
+        for c in calls:
+            a_cut = c.kwargs.get('cut', c.args[0] if c.args else None)
+            a_od = c.kwargs.get('output_dict', c.args[1] if len(c.args) > 1 else None)
+            ok = isinstance(a_cut, Rat) and a_cut.single_atom() == p.params[1] and vr(a_od) in ('self.DISTANCES', "dict()") or \
+                (isinstance(a_cut, Rat) and a_cut.single_atom() == p.params[1] and isinstance(a_od, Rat))
+            ctx.check(ok, 'C06.A', p, 'prepare fills self.DISTANCES with the caller\'s cut-off', witness={'call': unparse(c.node)}, node=c.node, key='prepare')
     ps = ctx.prog.func(NET + '.prepared_shortest_distance')
     t = unparse(ps.node)
     ctx.recognise('key = (source, target)' in t and 'return self.DISTANCES[key]' in t, 'C06.A', ps,
